@@ -496,7 +496,7 @@ struct Sel {
 }
 #[derive(Debug, Clone, PartialEq, Deserialize, Serialize, JsonSchema)]
 struct Scan {
-    #[serde(default)]
+    #[serde(default, rename = "sortBy")]
     sort_by: Option<String>,
 }
 
@@ -598,7 +598,7 @@ async fn paged_items(
     let p = query.into_inner();
     let limit = rqctx.page_limit(&p)?.get();
     let which = match &p.page {
-        WhichPage::First(scan) => json!({"first": {"sort_by": scan.sort_by}}),
+        WhichPage::First(scan) => json!({"first": {"sortBy": scan.sort_by}}),
         WhichPage::Next(sel) => json!({"next": {"s": sel.s}}),
     };
     Ok(HttpResponseOk(json!({"limit": limit, "which": which})))
@@ -661,17 +661,19 @@ fn op_whichpage(case: &Value) -> Value {
         None => issue("sel-value").unwrap().unwrap(),
     };
     let mut parts: Vec<(&str, &str)> = vec![];
-    if shape.contains("other") { parts.push(("sort_by", "name-descending")); }
+    // parameters the scan type does not declare, sorting before the one it does
+    if shape.contains("extra") { parts.push(("aaa", "1")); parts.push(("debug", "true")); }
+    if shape.contains("other") { parts.push(("sortBy", "name-descending")); }
     if shape.contains("token") { parts.push(("page_token", token.as_str())); }
     let q = if parts.is_empty() { String::new() } else { format!("?{}", serde_urlencoded::to_string(&parts).unwrap()) };
     let Some(r) = get_items(&q) else { return json!({"as_specified": false, "status": 0}) };
     let body: Value = serde_json::from_slice(&r.body).unwrap_or(Value::Null);
     let ok = if shape.contains("token") {
         r.status == 200 && body["which"]["next"]["s"] == "sel-value"
-    } else if shape == "other" {
-        r.status == 200 && body["which"]["first"]["sort_by"] == "name-descending"
+    } else if shape.contains("other") {
+        r.status == 200 && body["which"]["first"]["sortBy"] == "name-descending"
     } else {
-        r.status == 200 && body["which"]["first"]["sort_by"].is_null() && !body["which"]["first"].is_null()
+        r.status == 200 && body["which"]["first"]["sortBy"].is_null() && !body["which"]["first"].is_null()
     };
     json!({"as_specified": ok, "status": r.status, "body": body})
 }
@@ -718,7 +720,7 @@ struct NumSel {
 }
 #[derive(Debug, Clone, PartialEq, Deserialize, Serialize, JsonSchema)]
 struct NumScan {
-    #[serde(default)]
+    #[serde(default, rename = "sortDesc")]
     desc: bool,
 }
 
@@ -767,7 +769,14 @@ fn op_scan(case: &Value) -> Value {
                 let mut parts: Vec<(String, String)> = vec![];
                 match &token {
                     Some(t) => parts.push(("page_token".into(), t.clone())),
-                    None => { if desc { parts.push(("desc".into(), "true".into())); } }
+                    None => {
+                        if desc {
+                            // the first page names the scan mode among parameters the scan type does not declare
+                            parts.push(("aaa".into(), "1".into()));
+                            parts.push(("debug".into(), "true".into()));
+                            parts.push(("sortDesc".into(), "true".into()));
+                        }
+                    }
                 }
                 if let Some(l) = limit { parts.push(("limit".into(), l.to_string())); }
                 let q = if parts.is_empty() { String::new() } else { format!("?{}", serde_urlencoded::to_string(&parts).unwrap()) };
@@ -1155,6 +1164,11 @@ fn op_ws_handshake(case: &Value) -> Value {
         rq.extend_from_slice(b"Sec-WebSocket-Key: ");
         rq.extend_from_slice(k);
         rq.extend_from_slice(b"\r\n");
+    }
+    if let Value::Array(extra) = &h["extra"] {
+        for e in extra {
+            rq.extend_from_slice(format!("{}: {}\r\n", e[0].as_str().unwrap_or("x-none"), e[1].as_str().unwrap_or("")).as_bytes());
+        }
     }
     rq.extend_from_slice(b"\r\n");
     let mut api = ApiDescription::new();
@@ -1706,7 +1720,7 @@ fn op_register_params(case: &Value) -> Value {
     let r = crate::quiet(|| {
         let mut e: ApiEndpoint<()> = ApiEndpoint::from(dyn_params);
         e.path = path;
-        e.visible = !e.path.contains(":.*");
+        e.visible = !e.path.contains(":.*") && case["visible"].as_bool().unwrap_or(true);
         let mut api = ApiDescription::<()>::new();
         api.register(e)
     });
